@@ -26,5 +26,36 @@ def run(ctx):
     led.require_min("C03.leaf.keys", len(keys), 11, "distinct weighted metrics")
     RS.check_scores_out(ctx, led, 2, "C03.out")
     RS.check_deps(ctx, led, 2, "C03.deps")
+    # exactness: every Decimal +,-,* in the v2 graphs is exact at precision 28, so the structural
+    # identity is the numeric identity (under any ambient rounding mode)
+    from ..absnum import Bounds, Digits
+    from ..terms import App, Const
+
+    dg = Digits(Bounds(om.ev, om.st))
+    worst_frac = 0
+    unknown = False
+    for a in RS.SCORE_ATTRS:
+        t = om.attr(a)
+        arms = [t]
+        if isinstance(t, App) and t.op == "ite":
+            arms = [x for x in t.args[1:] if not (isinstance(x, Const) and x.v is None)]
+        for arm in arms:
+            d = dg.frac(arm if not isinstance(arm, Const) else arm)
+            if d is None:
+                unknown = True
+    # fractional digits of every intermediate are bounded by the largest monomial digit sum met;
+    # |intermediate| < 1000 for every v2 sub-expression (weights <= 20, at most 3 integer digits)
+    worst = max([dg.worst] + [0])
+    if dg.inexact or unknown:
+        led.undecided("C03.exact", "an operation whose exactness is not established occurs in the v2 graphs: %s" % (dg.inexact[:2] or "unbounded digits"))
+    else:
+        led.check(
+            worst + 2 <= 28,
+            "C03.exact",
+            "CVSS2 score graphs: significant digits of any intermediate",
+            "cvss/cvss2.py",
+            "a Decimal operation may need %d significant digits (> 28): results can depend on the ambient context" % (worst + 2),
+            detail="at most %d significant digits (+2 slack for intermediates) <= 28" % worst,
+        )
     led.count("inlined_functions", len(om.ev.inline_log))
     led.extra["functions_analysed"] = sorted(om.ev.inline_log)
